@@ -133,6 +133,12 @@ pub trait Flavour: 'static {
     // ---- searches
     fn search(root: &Self::Node, cfg: &SearchCfg, m: Meth<Self>) -> SearchRes<Self>;
     fn order(root: &Self::Node, cfg: &OrderCfg, m: Meth<Self>) -> OrderRes<Self>;
+    /// the same search object asked twice (search_path / search for pfs), with `between` run in between
+    fn search_path_twice(root: &Self::Node, cfg: &SearchCfg, between: &mut dyn FnMut()) -> (Option<PathB<Self>>, Option<PathB<Self>>);
+    /// search_path() followed by a different terminal (search / search_cycle) on the same search object
+    fn search_path_then(root: &Self::Node, cfg: &SearchCfg, second: Term) -> SearchRes<Self>;
+    /// the same ordering object asked twice
+    fn order_twice(root: &Self::Node, cfg: &OrderCfg, between: &mut dyn FnMut()) -> (OrderRes<Self>, OrderRes<Self>);
 
     // ---- containers
     fn g_new() -> Self::Graph;
@@ -234,6 +240,61 @@ macro_rules! search_body {
     (@tr $b:ident, $cfg:ident, no) => {
         assert!(!$cfg.transposed, "transpose() does not exist on undirected searches");
     };
+}
+
+macro_rules! twice_body {
+    ($root:expr, $cfg:expr, $between:expr, $ctor:ident, $prio:tt, $tr:tt) => {{
+        let cfg: &SearchCfg = $cfg;
+        let tk: Key = cfg.target.unwrap_or(0);
+        let mut b = $root.$ctor();
+        search_body!(@prio b, cfg, $prio);
+        if cfg.target.is_some() {
+            b = b.target(&tk);
+        }
+        search_body!(@tr b, cfg, $tr);
+        let first = b.search_path();
+        $between();
+        let second = b.search_path();
+        (wrap_path!(first), wrap_path!(second))
+    }};
+}
+macro_rules! then_body {
+    ($root:expr, $cfg:expr, $second:expr, $ctor:ident, $prio:tt, $tr:tt) => {{
+        let cfg: &SearchCfg = $cfg;
+        let tk: Key = cfg.target.unwrap_or(0);
+        let mut b = $root.$ctor();
+        search_body!(@prio b, cfg, $prio);
+        if cfg.target.is_some() {
+            b = b.target(&tk);
+        }
+        search_body!(@tr b, cfg, $tr);
+        let _first = b.search_path();
+        match $second {
+            Term::Search => SearchRes::Node(b.search()),
+            Term::Path => SearchRes::Path(wrap_path!(b.search_path())),
+            Term::Cycle => SearchRes::Path(wrap_path!(b.search_cycle())),
+        }
+    }};
+}
+macro_rules! order_twice_body {
+    ($root:expr, $cfg:expr, $between:expr, $mk:expr, $tr:tt) => {{
+        let cfg: &OrderCfg = $cfg;
+        #[allow(unused_mut)]
+        let mut o = $mk;
+        order_body!(@tr o, cfg, $tr);
+        match cfg.term {
+            OTerm::Nodes => {
+                let first = o.search_nodes();
+                $between();
+                (OrderRes::Nodes(first), OrderRes::Nodes(o.search_nodes()))
+            }
+            OTerm::Edges => {
+                let first = o.search_edges();
+                $between();
+                (OrderRes::Edges(first), OrderRes::Edges(o.search_edges()))
+            }
+        }
+    }};
 }
 
 macro_rules! order_body {
@@ -498,6 +559,23 @@ macro_rules! directed_flavour {
             fn order(root: &Self::Node, cfg: &OrderCfg, m: Meth<Self>) -> OrderRes<Self> {
                 order_body!(root, cfg, m, Self::Edge, if cfg.ord == Ordk::Pre { root.preorder() } else { root.postorder() }, yes)
             }
+            fn search_path_twice(root: &Self::Node, cfg: &SearchCfg, between: &mut dyn FnMut()) -> (Option<PathB<Self>>, Option<PathB<Self>>) {
+                match cfg.algo {
+                    Algo::Bfs => twice_body!(root, cfg, between, bfs, no, yes),
+                    Algo::Dfs => twice_body!(root, cfg, between, dfs, no, yes),
+                    _ => twice_body!(root, cfg, between, pfs, yes, yes),
+                }
+            }
+            fn order_twice(root: &Self::Node, cfg: &OrderCfg, between: &mut dyn FnMut()) -> (OrderRes<Self>, OrderRes<Self>) {
+                order_twice_body!(root, cfg, between, if cfg.ord == Ordk::Pre { root.preorder() } else { root.postorder() }, yes)
+            }
+            fn search_path_then(root: &Self::Node, cfg: &SearchCfg, second: Term) -> SearchRes<Self> {
+                match cfg.algo {
+                    Algo::Bfs => then_body!(root, cfg, second, bfs, no, yes),
+                    Algo::Dfs => then_body!(root, cfg, second, dfs, no, yes),
+                    _ => then_body!(root, cfg, second, pfs, yes, yes),
+                }
+            }
             fn g_index_ref(g: &Self::Graph, k: Key) -> Self::Node { g[&k].clone() }
             fn g_roots(g: &Self::Graph) -> Vec<Self::Node> { g.roots() }
             fn g_leaves(g: &Self::Graph) -> Vec<Self::Node> { g.leaves() }
@@ -547,6 +625,23 @@ macro_rules! undirected_flavour {
             }
             fn order(root: &Self::Node, cfg: &OrderCfg, m: Meth<Self>) -> OrderRes<Self> {
                 order_body!(root, cfg, m, Self::Edge, if cfg.ord == Ordk::Pre { root.order().pre() } else { root.order().post() }, no)
+            }
+            fn search_path_twice(root: &Self::Node, cfg: &SearchCfg, between: &mut dyn FnMut()) -> (Option<PathB<Self>>, Option<PathB<Self>>) {
+                match cfg.algo {
+                    Algo::Bfs => twice_body!(root, cfg, between, bfs, no, no),
+                    Algo::Dfs => twice_body!(root, cfg, between, dfs, no, no),
+                    _ => twice_body!(root, cfg, between, pfs, yes, no),
+                }
+            }
+            fn order_twice(root: &Self::Node, cfg: &OrderCfg, between: &mut dyn FnMut()) -> (OrderRes<Self>, OrderRes<Self>) {
+                order_twice_body!(root, cfg, between, if cfg.ord == Ordk::Pre { root.order().pre() } else { root.order().post() }, no)
+            }
+            fn search_path_then(root: &Self::Node, cfg: &SearchCfg, second: Term) -> SearchRes<Self> {
+                match cfg.algo {
+                    Algo::Bfs => then_body!(root, cfg, second, bfs, no, no),
+                    Algo::Dfs => then_body!(root, cfg, second, dfs, no, no),
+                    _ => then_body!(root, cfg, second, pfs, yes, no),
+                }
             }
             fn g_index_ref(g: &Self::Graph, k: Key) -> Self::Node { g[k].clone() }
             fn g_roots(_g: &Self::Graph) -> Vec<Self::Node> { vec![] }
